@@ -443,8 +443,15 @@ pub fn render_float(
 	// don't have trouble with the rounding direction.
 	let denominator = 10.0f64.powi(i32::from(precision));
 	let numerator = n.abs().mul_add(denominator, 0.5);
-	let whole = (numerator / denominator).floor();
-	let frac = numerator.floor() % denominator;
+	let (whole, frac) = if numerator.is_finite() {
+		(
+			(numerator / denominator).floor(),
+			numerator.floor() % denominator,
+		)
+	} else {
+		// n * 10**prec is not representable, numbers that large have no fractional part
+		(n.abs().floor(), 0.0)
+	};
 
 	#[allow(clippy::bool_to_int_with_if)]
 	let dot_size = if precision == 0 && !ensure_pt { 0 } else { 1 };
